@@ -14,6 +14,8 @@ SPEC = {
             'name': 'order', 'harness_files': {ORD: 'harness/order.rs'},
             'harnesses': [
                 {'name': 'c01_new_order_1', 'file': ORD, 'timeout': 1200, 'unwindset': N1, 'bounds': '1 identifier, type and 1-byte value symbolic', 'asserts': 'NewOrder::new lists exactly the configured identifiers (type, value)'},
+                {'name': 'c01_new_order_name_and_wildcard', 'file': ORD, 'timeout': 1800, 'unwindset': {'from_iter|extend|fold|SpecFromIter|collect|dedup': 3, 'memcmp': 4},
+                 'bounds': 'identifiers [a, *.a] or [*.a, a] (order symbolic)', 'asserts': 'both identifiers are ordered, in order, wildcard prefix kept'},
                 {'name': 'c01_new_order_3', 'file': ORD, 'timeout': 1800, 'unwindset': N3, 'bounds': '3 identifiers, types and values symbolic', 'asserts': 'NewOrder::new keeps count, order, type and value of every identifier'},
             ],
         },
@@ -22,10 +24,10 @@ SPEC = {
             'assumptions': ['openssl model: X509ReqBuilder / SubjectAlternativeName / X509NameBuilder are records of what they were given'],
             'harness_files': {ACC: 'harness/ac_certificate.rs'},
             'harnesses': [
-                {'name': 'c01_csr_record_no_attr', 'file': ACC, 'timeout': 1800, 'unwindset': {'Csr::new': 3, 'ConvertVec>::to_vec': 3, 'simd_bitmask': 17, r'drop_glue::<\[': 3, 'swap_nonoverlapping': 8},
+                {'name': 'c01_csr_record_no_attr', 'file': ACC, 'timeout': 1800, 'unwindset': {'Csr::new': 3, 'ConvertVec>::to_vec': 4, 'simd_bitmask': 17, r'drop_glue::<\[': 4, 'swap_nonoverlapping': 8},
                  'bounds': '5 key types x 3 digests, any key identity, 2 DNS names + 1 IP (symbolic 1-byte values), no subject attribute',
                  'asserts': 'CSR pubkey == signer == given key; digest as configured (none for EdDSA); SAN = given names in order; empty subject'},
-                {'name': 'c01_csr_record_one_attr', 'file': ACC, 'timeout': 1800, 'unwindset': {'Csr::new': 3, 'ConvertVec>::to_vec': 3, 'simd_bitmask': 17, r'drop_glue::<\[': 3, 'swap_nonoverlapping': 8},
+                {'name': 'c01_csr_record_one_attr', 'file': ACC, 'timeout': 1800, 'unwindset': {'Csr::new': 3, 'ConvertVec>::to_vec': 4, 'simd_bitmask': 17, r'drop_glue::<\[': 4, 'swap_nonoverlapping': 8},
                  'bounds': 'same with one subject attribute (organization_name)', 'asserts': 'same + the subject carries exactly that attribute'},
             ],
         },
